@@ -1,6 +1,6 @@
 (* C20 — facts about Registration.update_params (case analysis over every check of rd.py:154-235) *)
 From Coq Require Import String.
-From Verif Require Import Lib.Py Lib.Tactics Model.C20Str Model.C20.
+From Verif Require Import Lib.Py Lib.Tactics Model.C20Str Model.C20 Proofs.C20Dict.
 Open Scope Z_scope.
 
 (* ------------------------------------------------------------------ update_params *)
@@ -42,4 +42,22 @@ Lemma update_params_fail_exn r remote p init t seq r' e : update_params r remote
 Proof.
   unfold update_params, bind, pop_single_arg. intros H.
   repeat (break_match; try discriminate; inv_eqs); inv H; auto.
+Qed.
+
+(* since f8ef49b nothing is mutated before the last check: a failing update_params has no effect and raises BadRequest *)
+Lemma dmem_ddel_other (q : query) k k' : k' <> k -> dmem String.eqb (ddel String.eqb q k) k' = dmem String.eqb q k'.
+Proof. intros N. unfold dmem. rewrite (dget_ddel_other String.eqb String.eqb_eq); auto. Qed.
+
+Lemma update_params_fail_clean r remote p init t seq r' e : update_params r remote p init t seq = UpFail r' e -> r' = r /\ e = BadRequest.
+Proof.
+  unfold update_params, bind, pop_single_arg. intros H.
+  destruct (dmem String.eqb p "base") eqn:Eb.
+  - repeat (break_match; try discriminate; inv_eqs); inv H; auto.
+    all: try (match goal with H : dmem String.eqb (ddel String.eqb _ "lt"%string) "base"%string = false |- _ => rewrite dmem_ddel_other in H by discriminate; congruence end).
+    all: try congruence.
+  - repeat (break_match; try discriminate; inv_eqs); inv H; auto.
+    all: try (match goal with H : dmem String.eqb (ddel String.eqb _ "lt"%string) "base"%string = true |- _ => rewrite dmem_ddel_other in H by discriminate; congruence end).
+    all: try congruence.
+    all: cbn in *; try congruence.
+    all: repeat match goal with H : context [r_base_explicit ?x] |- _ => is_var x; destruct (r_base_explicit x) end; try (destruct init); cbn in *; congruence.
 Qed.
